@@ -155,6 +155,9 @@ class Prop(core.Prop):
                 for b_ in rng:
                     for st in (None, 1, 2, -1, -2):
                         yield {'file': group['file'], 'slice_dim': group['slice_dim'], 'args': [a, b_, st]}
+                        if st in (None, 2) and a in (None, 1) and b_ in (None, n, 1):
+                            yield {'file': group['file'], 'slice_dim': group['slice_dim'], 'args': [a, b_, st],
+                                   'fuzzy': True}
             return
         axes = [selectors(lens[d], self.tier) for d in group['dims']]
         for combo in itertools.product(*axes):
@@ -166,14 +169,26 @@ class Prop(core.Prop):
     def run_slice_dim(self, case):
         from PseudoNetCDF.core._functions import slice_dim
         real = lib.to_real(rfile.ufile(case['file']))
-        rf = lib.snap(real, cls='PseudoNetCDFFile')
         d, args = case['slice_dim'], case['args']
+        fuzzy = []
+        if case.get('fuzzy'):
+            # further dimensions whose names extend the sliced name: '<d>7' is a documented fuzzy match
+            # (digits only) and is sliced as well; '<d>b' and '<d>_2' are different dimensions
+            n = len(real.dimensions[d])
+            for suffix, touched in (('7', True), ('b', False), ('_2', False)):
+                real.createDimension(d + suffix, n)
+                v = real.createVariable('V' + suffix.strip('_'), 'd', (d + suffix,))
+                v.units = 'm'
+                v[...] = np.arange(n) * 1.5 + len(suffix)
+                if touched:
+                    fuzzy.append(d + suffix)
+        rf = lib.snap(real, cls='PseudoNetCDFFile')
         if len(args) == 1:
             a, b_, st = args[0], args[0] + 1, None      # documented: a single number is one index
         else:
             a, b_, st = args
         text = ','.join([d] + [repr(x) for x in (args if len(args) == 1 else (a, b_, st))])
-        exp = rops.rslice(rf, OrderedDict([(d, ('s', a, b_, st))]))
+        exp = rops.rslice(rf, OrderedDict([(d, ('s', a, b_, st))] + [(fd, ('s', a, b_, st)) for fd in fuzzy]))
         before = rfile.canon(rf)
         sig = ('slice_dim', 'neg-step' if (st or 1) < 0 else 'pos-step')
         scope = dict(selcls='slice_dim', step=st, one_arg=len(args) == 1)
